@@ -3,7 +3,7 @@ From LV Require Import Base Toml FS LayerEnv LayerShared LayerEnvFS SpecDocs Lay
 From LV.Checks Require Import C01Hold C01Agree.
 From LVGen Require Import GenLayerShared.
 From LVGen Require GenLayerSharedImp.
-From LV Require LayerSboms LayerSbomsFacts LayerSharedFacts WriteLayerFacts Determinism.
+From LV Require LayerSboms LayerSbomsFacts LayerSharedFacts WriteLayerFacts ReplaceMetaFacts Determinism.
 From Coq Require Import String.
 Open Scope string_scope.
 Open Scope N_scope.
@@ -182,3 +182,47 @@ Theorem c01_write_layer_existing :
                 (pset (layers ++ [n ++ [46; 116; 111; 109; 108]]) (File m (Doc (enc lcm))) s, Ok tt).
 Proof. intros T enc layers n lcm Vn Vt. exact (LV.WriteLayerFacts.write_layer_existing enc layers n lcm Vn Vt). Qed.
 Print Assumptions c01_write_layer_existing.
+
+(* ---- shared::replace_layer_types (what keeping a layer does to <layer>.toml) and
+   shared::replace_layer_metadata (ReplaceMetadata), regenerated statement by statement from the source
+   (the content metadata is a pair (types, metadata); parsing and encoding of the document are parameters).
+   In a writable layers directory reached through searchable real directories, with a regular readable and
+   writable <layer>.toml that parses: *)
+(* keeping a layer declares exactly the requested types and leaves the metadata the previous build wrote;
+   the resulting file system is given in full, so nothing else changes *)
+Theorem c01_keep_refreshes_types_only :
+  forall (Ty Md : Type) (parse : bytes -> option (option Ty * Md)) (enc : option Ty * Md -> tv) layers n,
+    LV.FSFacts.valid_name (n ++ [46; 116; 111; 109; 108]) = true ->
+    forall s m c ty0 md0 ty,
+      LV.Determinism.simple_dir s layers ->
+      pget (layers ++ [n ++ [46; 116; 111; 109; 108]]) s = Some (File m c) -> has_r m = true -> has_w m = true ->
+      parse (content_bytes c) = Some (ty0, md0) ->
+      LVGen.GenLayerSharedImp.gen_replace_layer_types parse enc layers n ty s =
+      (pset (layers ++ [n ++ [46; 116; 111; 109; 108]]) (File m (Doc (enc (Some ty, md0)))) s, Ok tt).
+Proof. intros Ty Md parse enc layers n V. exact (LV.ReplaceMetaFacts.replace_layer_types_exact parse enc layers n V). Qed.
+Print Assumptions c01_keep_refreshes_types_only.
+
+(* replacing the metadata leaves the types the document declares *)
+Theorem c01_replace_metadata_keeps_types :
+  forall (Ty Md : Type) (parse : bytes -> option (option Ty * Md)) (enc : option Ty * Md -> tv) layers n,
+    LV.FSFacts.valid_name (n ++ [46; 116; 111; 109; 108]) = true ->
+    forall s m c ty0 md0 md,
+      LV.Determinism.simple_dir s layers ->
+      pget (layers ++ [n ++ [46; 116; 111; 109; 108]]) s = Some (File m c) -> has_r m = true -> has_w m = true ->
+      parse (content_bytes c) = Some (ty0, md0) ->
+      LVGen.GenLayerSharedImp.gen_replace_layer_metadata parse enc layers n md s =
+      (pset (layers ++ [n ++ [46; 116; 111; 109; 108]]) (File m (Doc (enc (ty0, md)))) s, Ok tt).
+Proof. intros Ty Md parse enc layers n V. exact (LV.ReplaceMetaFacts.replace_layer_metadata_exact parse enc layers n V). Qed.
+Print Assumptions c01_replace_metadata_keeps_types.
+
+(* a document that does not parse is an error and nothing is written *)
+Theorem c01_keep_unparsable_is_error :
+  forall (Ty Md : Type) (parse : bytes -> option (option Ty * Md)) (enc : option Ty * Md -> tv) layers n,
+    LV.FSFacts.valid_name (n ++ [46; 116; 111; 109; 108]) = true ->
+    forall s m c ty,
+      LV.Determinism.simple_dir s layers ->
+      pget (layers ++ [n ++ [46; 116; 111; 109; 108]]) s = Some (File m c) -> has_r m = true ->
+      parse (content_bytes c) = None ->
+      LVGen.GenLayerSharedImp.gen_replace_layer_types parse enc layers n ty s = (s, Err EINVAL).
+Proof. intros Ty Md parse enc layers n V. exact (LV.ReplaceMetaFacts.replace_layer_types_unparsable parse enc layers n V). Qed.
+Print Assumptions c01_keep_unparsable_is_error.
